@@ -1,5 +1,5 @@
 (* Metatheory of Base/Prog.v used by every procedure theorem. *)
-From Coq Require Import ZArith NArith Bool List Lia.
+From Coq Require Import ZArith NArith Bool List Lia Permutation.
 From Mysync Require Import Gtid.Interval Gtid.GtidSet Base.Prog.
 Import ListNotations.
 
@@ -48,7 +48,7 @@ Proof.
       Forall (Forall (ev_ok P)) acc_tr ->
       (fix branches (bs : list (host * prog resp)) (acc_tr : list trace) (acc_rs : list (host * resp)) : Prop :=
          match bs with
-         | [] => exists tpar tk, interleave (rev acc_tr) tpar /\ tr = tpar ++ tk /\ runs (k (rev acc_rs)) tk o
+         | [] => exists tpar tk rs, interleave (rev acc_tr) tpar /\ tr = tpar ++ tk /\ Permutation (rev acc_rs) rs /\ runs (k rs) tk o
          | (h, b) :: bs' =>
              exists tb ob, runs b tb ob /\
                match ob with
@@ -58,9 +58,9 @@ Proof.
          end) bs0 acc_tr acc_rs ->
       Forall (ev_ok P) tr).
     { induction bs0 as [|[h b] bs' IHb]; intros acc_tr acc_rs Hgo Hacc Hrun.
-      - destruct Hrun as (tpar & tk & Hi & -> & Hrk). apply Forall_app. split.
+      - destruct Hrun as (tpar & tk & rs & Hi & -> & _ & Hrk). apply Forall_app. split.
         + eapply interleave_Forall; eauto. apply Forall_rev. exact Hacc.
-        + eapply (allcalls_sound _ (k (rev acc_rs))); eauto.
+        + eapply (allcalls_sound _ (k rs)); eauto.
       - destruct Hgo as [Hb Hgo]. destruct Hrun as (tb & ob & Hrb & Hrest).
         assert (Forall (ev_ok P) tb) as Htb by (eapply (allcalls_sound _ b); eauto).
         destruct ob as [r|s'].
@@ -86,7 +86,7 @@ Proof.
          match bs with [] => True | (_, b) :: r => nopanic b /\ go r end) bs0 ->
       (fix branches (bs : list (host * prog resp)) (acc_tr : list trace) (acc_rs : list (host * resp)) : Prop :=
          match bs with
-         | [] => exists tpar tk, interleave (rev acc_tr) tpar /\ tr = tpar ++ tk /\ runs (k (rev acc_rs)) tk o
+         | [] => exists tpar tk rs, interleave (rev acc_tr) tpar /\ tr = tpar ++ tk /\ Permutation (rev acc_rs) rs /\ runs (k rs) tk o
          | (h, b) :: bs' =>
              exists tb ob, runs b tb ob /\
                match ob with
@@ -96,7 +96,7 @@ Proof.
          end) bs0 acc_tr acc_rs ->
       exists a, o = Done a).
     { induction bs0 as [|[h b] bs' IHb]; intros acc_tr acc_rs Hgo Hrun.
-      - destruct Hrun as (tpar & tk & _ & _ & Hrk). eapply (nopanic_sound _ (k (rev acc_rs))); eauto.
+      - destruct Hrun as (tpar & tk & rs & _ & _ & _ & Hrk). eapply (nopanic_sound _ (k rs)); eauto.
       - destruct Hgo as [Hb Hgo]. destruct Hrun as (tb & ob & Hrb & Hrest).
         destruct (nopanic_sound _ b Hb _ _ Hrb) as [r ->]. apply (IHb (tb :: acc_tr) ((h, r) :: acc_rs)); [exact Hgo|exact Hrest]. }
     eapply G; eauto.
@@ -231,7 +231,7 @@ Proof.
       Forall (Forall (fun e => okc st (ev_call e) /\ neutral (ev_call e))) acc_tr ->
       (fix branches (bs : list (host * prog resp)) (acc_tr : list trace) (acc_rs : list (host * resp)) : Prop :=
          match bs with
-         | [] => exists tpar tk, interleave (rev acc_tr) tpar /\ tr = tpar ++ tk /\ runs (k (rev acc_rs)) tk o
+         | [] => exists tpar tk rs, interleave (rev acc_tr) tpar /\ tr = tpar ++ tk /\ Permutation (rev acc_rs) rs /\ runs (k rs) tk o
          | (h, b) :: bs' =>
              exists tb ob, runs b tb ob /\
                match ob with
@@ -241,9 +241,9 @@ Proof.
          end) bs0 acc_tr acc_rs ->
       trace_ok st tr).
     { induction bs0 as [|[h b] bs' IHb]; intros acc_tr acc_rs Hgo Hacc Hrun.
-      - destruct Hrun as (tpar & tk & Hi & -> & Hrk). apply trace_ok_neutral_app.
+      - destruct Hrun as (tpar & tk & rs & Hi & -> & _ & Hrk). apply trace_ok_neutral_app.
         + eapply interleave_Forall; eauto. apply Forall_rev. exact Hacc.
-        + eapply (safe_sound _ (k (rev acc_rs))); eauto.
+        + eapply (safe_sound _ (k rs)); eauto.
       - destruct Hgo as [Hb Hgo]. destruct Hrun as (tb & ob & Hrb & Hrest).
         assert (Forall (fun e => okc st (ev_call e) /\ neutral (ev_call e)) tb) as Htb.
         { pose proof (allcalls_sound _ b Hb tb ob Hrb) as F. eapply Forall_impl; [|exact F]. intros e He. exact He. }
@@ -258,6 +258,16 @@ Lemma safe_bind {A B} (p : prog A) (f : A -> prog B) : forall st,
   safe st p -> (forall st' a, safe st' (f a)) -> safe st (bind p f).
 Proof.
   induction p as [a|s|s c k IH|s bs k IH] using prog_ind_k; intros st Hp Hf; cbn in *; auto.
+  - destruct Hp as [Hc Hk]. split; auto.
+  - destruct Hp as [Hb Hk]. split; auto.
+Qed.
+
+(* bind under a state invariant preserved by every monitor step *)
+Lemma safe_bind_inv {A B} (Inv : S -> Prop) (HI : forall st c r, Inv st -> Inv (step st c r))
+      (p : prog A) (f : A -> prog B) : forall st,
+  Inv st -> safe st p -> (forall st' a, Inv st' -> safe st' (f a)) -> safe st (bind p f).
+Proof.
+  induction p as [a|s|s c k IH|s bs k IH] using prog_ind_k; intros st Hi Hp Hf; cbn in *; auto.
   - destruct Hp as [Hc Hk]. split; auto.
   - destruct Hp as [Hb Hk]. split; auto.
 Qed.
@@ -280,3 +290,86 @@ Proof.
     apply W. exact H1.
 Qed.
 End Monitor.
+
+(* a sub-program whose calls are fine in state st and do not move the monitor *)
+Lemma safe_at {S} (step : S -> call -> resp -> S) (okc : S -> call -> Prop) {A} (p : prog A) (st : S) :
+  allcalls (fun _ c => okc st c /\ neutral S step c) p -> safe S step okc st p.
+Proof.
+  induction p as [a|s|s c k IH|s bs k IH] using prog_ind_k; intros Hp; cbn in *; auto.
+  - destruct Hp as [[Hc Hn] Hk]. split; [exact Hc|]. intros r. rewrite Hn. apply IH. apply Hk.
+  - destruct Hp as [Hb Hk]. split; [exact Hb|]. intros rs. apply IH. apply Hk.
+Qed.
+
+Lemma allcalls_impl {A} (P Q : site -> call -> Prop) : (forall s c, P s c -> Q s c) ->
+  forall (p : prog A), allcalls P p -> allcalls Q p.
+Proof.
+  intros HPQ. revert A. fix F 2. intros A p. destruct p as [a|s|s c k|s bs k]; cbn [allcalls]; intros K; auto.
+  - destruct K as [Kc Kk]. split; [apply HPQ; exact Kc|]. intros r. apply F. apply Kk.
+  - destruct K as [Kb Kk]. split; [|intros rs; apply F; apply Kk].
+    induction bs as [|[h' b'] r' IHr']; [exact I|]. destruct Kb as [K1 K2]. split; [apply F; exact K1|apply IHr'; exact K2].
+Qed.
+
+(* ---- runs of a bind split into a run of the first part and one of the rest ---- *)
+Lemma runs_bind_inv {A B} (p : prog A) (f : A -> prog B) : forall tr o,
+  runs (bind p f) tr o ->
+  (exists tr1 tr2 a, runs p tr1 (Done a) /\ runs (f a) tr2 o /\ tr = tr1 ++ tr2) \/
+  (exists s, runs p tr (Panicked s) /\ o = Panicked s).
+Proof.
+  induction p as [a|s|s c k IH|s bs k IH] using prog_ind_k; intros tr o H; cbn [bind] in H.
+  - left. exists [], tr, a. cbn. auto.
+  - cbn in H. destruct H as [-> ->]. right. exists s. cbn. auto.
+  - cbn [runs] in H. destruct tr as [|e tr']; [destruct H|]. destruct H as (Hs & Hc & Hr).
+    destruct (IH (ev_resp e) _ _ Hr) as [(tr1 & tr2 & a & H1 & H2 & E)|(s' & H1 & E)].
+    + left. exists (e :: tr1), tr2, a. cbn [runs]. subst. auto.
+    + right. exists s'. cbn [runs]. auto.
+  - cbn [runs] in H |- *.
+    (* generalise over the accumulators of the nested fix *)
+    assert (G : forall (bs0 : list (host * prog resp)) acc_tr acc_rs,
+      (fix branches (bs : list (host * prog resp)) (acc_tr : list trace) (acc_rs : list (host * resp)) : Prop :=
+         match bs with
+         | [] => exists tpar tk rs, interleave (rev acc_tr) tpar /\ tr = tpar ++ tk /\ Permutation (rev acc_rs) rs /\ runs (bind (k rs) f) tk o
+         | (h, b) :: bs' =>
+             exists tb ob, runs b tb ob /\
+               match ob with
+               | Done r => branches bs' (tb :: acc_tr) ((h, r) :: acc_rs)
+               | Panicked s' => o = Panicked s' /\ exists tpar, interleave (rev (tb :: acc_tr)) tpar /\ tr = tpar
+               end
+         end) bs0 acc_tr acc_rs ->
+      (exists tr1 tr2 a,
+        (fix branches (bs : list (host * prog resp)) (acc_tr : list trace) (acc_rs : list (host * resp)) : Prop :=
+           match bs with
+           | [] => exists tpar tk rs, interleave (rev acc_tr) tpar /\ tr1 = tpar ++ tk /\ Permutation (rev acc_rs) rs /\ runs (k rs) tk (Done a)
+           | (h, b) :: bs' =>
+               exists tb ob, runs b tb ob /\
+                 match ob with
+                 | Done r => branches bs' (tb :: acc_tr) ((h, r) :: acc_rs)
+                 | Panicked s' => Done a = Panicked s' /\ exists tpar, interleave (rev (tb :: acc_tr)) tpar /\ tr1 = tpar
+                 end
+           end) bs0 acc_tr acc_rs /\ runs (f a) tr2 o /\ tr = tr1 ++ tr2) \/
+      (exists s',
+        (fix branches (bs : list (host * prog resp)) (acc_tr : list trace) (acc_rs : list (host * resp)) : Prop :=
+           match bs with
+           | [] => exists tpar tk rs, interleave (rev acc_tr) tpar /\ tr = tpar ++ tk /\ Permutation (rev acc_rs) rs /\ runs (k rs) tk (Panicked s')
+           | (h, b) :: bs' =>
+               exists tb ob, runs b tb ob /\
+                 match ob with
+                 | Done r => branches bs' (tb :: acc_tr) ((h, r) :: acc_rs)
+                 | Panicked s'' => Panicked (A:=A) s' = Panicked s'' /\ exists tpar, interleave (rev (tb :: acc_tr)) tpar /\ tr = tpar
+                 end
+           end) bs0 acc_tr acc_rs /\ o = Panicked s')).
+    { induction bs0 as [|[h b] bs' IHb]; intros acc_tr acc_rs Hrun.
+      - destruct Hrun as (tpar & tk & rs & Hi & Etr & Hp & Hrk).
+        destruct (IH rs _ _ Hrk) as [(t1 & t2 & a & K1 & K2 & Etk)|(s' & K1 & Eo)].
+        + left. exists (tpar ++ t1), t2, a. split; [|split; [exact K2|rewrite Etr, Etk, app_assoc; reflexivity]].
+          exists tpar, t1, rs. auto.
+        + right. exists s'. split; [|exact Eo]. exists tpar, tk, rs. auto.
+      - destruct Hrun as (tb & ob & Hrb & Hrest). destruct ob as [r|s''].
+        + destruct (IHb _ _ Hrest) as [(t1 & t2 & a & K1 & K2 & K3)|(s' & K1 & K2)].
+          * left. exists t1, t2, a. split; [|auto]. exists tb, (Done r). auto.
+          * right. exists s'. split; [|exact K2]. exists tb, (Done r). auto.
+        + destruct Hrest as (Eo & tpar & Hi & Etr). right. exists s''. split; [|exact Eo].
+          exists tb, (Panicked s''). split; [exact Hrb|]. split; [reflexivity|]. exists tpar. auto. }
+    destruct (G bs [] [] H) as [(t1 & t2 & a & K1 & K2 & K3)|(s' & K1 & K2)].
+    + left. exists t1, t2, a. auto.
+    + right. exists s'. auto.
+Qed.
